@@ -335,6 +335,64 @@ def _elem_type(qt):
     return q.replace('*', '').strip()
 
 
+def _attr_violations(u, only=None):
+    """functions whose declared optimisation contract does not hold for their body: `const` (result depends on the argument
+    VALUES only: no memory read through a pointer argument, no read of non-constant objects) or `pure` (no store).  The
+    compiler acts on the declaration: it merges or hoists calls across stores, so `x = load(p); store(p, v); y = load(p)`
+    yields the old value - the function is right, its callers are compiled wrong."""
+    decls = {}
+    for n in cast.inner(u.root):
+        if cast.kind(n) == 'FunctionDecl' and _in_repo(n):
+            decls.setdefault(n.get('name'), []).append(n)
+    out = []
+    for fn, fd in sorted(u.functions.items()):
+        if not _in_repo(fd):
+            continue
+        if only and not (cast.node_file(fd) or '').endswith(only):
+            continue
+        attrs = set()
+        for d in decls.get(fn, []) + [fd]:
+            for c in cast.inner(d):
+                k = cast.kind(c) or ''
+                if k in ('ConstAttr', 'PureAttr'):
+                    attrs.add(k)
+        if not attrs:
+            continue
+        params = {p['id']: p for p in cast.inner(fd) if cast.kind(p) == 'ParmVarDecl'}
+        ptr_params = {i for i, p in params.items() if '*' in cast.qual_type(p) or '[' in cast.qual_type(p)}
+        body = [c for c in cast.inner(fd) if cast.kind(c) == 'CompoundStmt']
+        if not body:
+            continue
+        # aliases: pointer-typed locals whose value derives from a pointer argument (`const unsigned char *src = ptr;`)
+        tl = _tainted_locals(fd)
+        for x in cast.walk(body[0]):
+            if cast.kind(x) == 'VarDecl' and x.get('id') in tl and '*' in cast.qual_type(x) and x.get('inner') and _mentions(x['inner'][-1], ptr_params):
+                ptr_params.add(x['id'])
+        reads = stores = None
+        for x in cast.walk(body[0]):
+            k = cast.kind(x)
+            if k in ('UnaryOperator',) and x.get('opcode') == '*' or k == 'ArraySubscriptExpr' or (k == 'MemberExpr' and x.get('isArrow')):
+                if _mentions(x, ptr_params):
+                    reads = reads or x
+            if k == 'CallExpr' and any(_mentions(a, ptr_params) for a in x['inner'][1:]):
+                reads = reads or x            # the memory is handed on (memcpy, a loader): read by the callee
+            tgt = None
+            if k == 'BinaryOperator' and x.get('opcode') == '=':
+                tgt = x['inner'][0]
+            elif k == 'CompoundAssignOperator' or (k == 'UnaryOperator' and x.get('opcode') in ('++', '--')):
+                tgt = x['inner'][0]
+            if tgt is not None and _mentions(tgt, ptr_params) and cast.kind(cast.strip_all_casts(tgt)) != 'DeclRefExpr':
+                stores = stores or x
+        if 'ConstAttr' in attrs and reads is not None:
+            out.append((fn, cast.where(fd), '`%s` is declared __attribute__((const)) but reads memory through a pointer argument (%s): the compiler may reuse an earlier '
+                        'call\'s result across a store to that memory - store, load, store, load through the same pointer returns the FIRST value in an optimised build'
+                        % (fn, cast.where(reads))))
+        if stores is not None:
+            out.append((fn, cast.where(fd), '`%s` is declared %s but stores through a pointer (%s): the compiler may drop or merge calls whose result is unused'
+                        % (fn, 'const' if 'ConstAttr' in attrs else 'pure', cast.where(stores))))
+    return out
+
+
 def run(ck, pid):
     rule = pid + '.s'
     rels = UNITS.get(pid)
@@ -370,7 +428,7 @@ def run(ck, pid):
                 if kind_ == 'read':
                     reads.setdefault(did, []).append((fn, cast.where(node)))
                 elif kind_ == 'write' and detail:
-                    found.setdefault((did, fn), ('is assigned data derived from the arguments of %s' % fn, cast.where(node)))
+                    found.setdefault((did, fn), ('%s assigns it data derived from its arguments' % fn, cast.where(node)))
                 elif kind_ == 'expose':
                     # handing out the address matters when something may store through it: scalar memory (octets, words)
                     # always may; a record only if this code stores through pointers to that record type somewhere
@@ -384,10 +442,19 @@ def run(ck, pid):
             name, dwhere, okind = objs[did]
             rd = reads.get(did, [])
             ck.violation(rule, 'static:%s:%s' % (name, fn), where,
-                         'the %s object `%s` (%s) %s: it outlives the call, so what a later call - or a nested call through a callback - does depends on '
+                         '%s object `%s` (%s): %s; it outlives the call, so what a later call - or a nested call through a callback - does depends on '
                          'this one (%s); every property here is stated for an operation given its arguments and the objects they designate'
                          % (okind, name, dwhere, what, ('read back in %s at %s' % rd[0]) if rd else 'reachable through the pointer handed out'))
         if not found:
             ck.holds(rule, 'static:%s' % rel, rel, 'no function of %s keeps argument-derived data in static storage (%d mutable static objects: %s)'
                      % (rel, len(objs), ', '.join(sorted(v[0] for v in objs.values())) or 'none'))
+    # declared optimisation contracts (const / pure) of the property's functions hold for their bodies
+    nattr = 0
+    for rel in rels:
+        u = cast.load(rel)
+        for fn, where, msg in _attr_violations(u, only):
+            nattr += 1
+            ck.violation(rule, 'attribute:%s' % fn, where, msg)
+    if nattr == 0:
+        ck.holds(rule, 'attributes', ', '.join(rels), 'no function of the property\'s code carries a const / pure attribute its body does not honour')
     ck.floor(rule, 'functions looked at', nfun, 3)
